@@ -150,49 +150,50 @@ def run_case(case):
         evs.append({"kind": "contract", "objs": [d_contract(x) for x in objs2], "eq": eq, "hash": hs, "copies": []})
     except ValueError:
         pass
-    # --- compound contracts: interface lists field-wise, assumptions / guarantees by meaning (unions of intervals with
-    #     integer end points; NestedTermList equality is semantic by design)
-    def comp(inv, outv, a, g):
-        def alts(v, ivs):
-            return [["-%s <= %d" % (v, -lo), "%s <= %d" % (v, hi)] for lo, hi in ivs]
-        return PolyhedralIoContractCompound.from_strings(alts(inv[0], a), alts(outv[0], g), inv, outv)
+    if case["id"] % 3 == 0:          # (each == on compound contracts solves LPs per pair of alternatives: a third of the cases carry this family)
+        # --- compound contracts: interface lists field-wise, assumptions / guarantees by meaning (unions of intervals with
+        #     integer end points; NestedTermList equality is semantic by design)
+        def comp(inv, outv, a, g):
+            def alts(v, ivs):
+                return [["-%s <= %d" % (v, -lo), "%s <= %d" % (v, hi)] for lo, hi in ivs]
+            return PolyhedralIoContractCompound.from_strings(alts(inv[0], a), alts(outv[0], g), inv, outv)
 
-    def intervals(n, disjoint):
-        out, lo = [], rng.randint(-12, -6)
-        for _ in range(n):
-            w = rng.randint(1, 3)
-            out.append([lo, lo + w])
-            lo += w + (rng.randint(1, 3) if disjoint else rng.randint(-1, 2))
-        return out
+        def intervals(n, disjoint):
+            out, lo = [], rng.randint(-12, -6)
+            for _ in range(n):
+                w = rng.randint(1, 3)
+                out.append([lo, lo + w])
+                lo += w + (rng.randint(1, 3) if disjoint else rng.randint(-1, 2))
+            return out
 
-    a0, g0 = intervals(rng.randint(1, 3), True), intervals(rng.randint(2, 3), rng.random() < 0.5)
-    g_late = [list(x) for x in g0]
-    g_late[-1] = [g_late[-1][0] + 20, g_late[-1][1] + 20]            # differs in the LAST alternative only
-    g_first = [list(x) for x in g0]
-    g_first[0] = [g_first[0][0] - 20, g_first[0][1] - 20]            # differs in the FIRST alternative only
-    a_late = [list(x) for x in a0]
-    a_late[-1] = [a_late[-1][0] + 20, a_late[-1][1] + 21]
-    specs = [(["i"], ["o"], a0, g0), (["i"], ["o"], a0, g0), (["i"], ["o"], list(reversed(a0)), list(reversed(g0))),
-             (["i"], ["o"], a0, g_late), (["i"], ["o"], a0, g_first), (["i"], ["o"], a_late, g0),
-             (["i"], ["o"], a0, g0[:-1]), (["i"], ["o"], a0, g0 + [[g0[-1][1] + 5, g0[-1][1] + 6]]),
-             (["i"], ["o", "p"], a0, g0), (["i", "j"], ["o"], a0, g0)]
-    cs, descr = [], []
-    for inv_, outv_, a_, g_ in specs:
-        try:
-            cs.append(comp(inv_, outv_, a_, g_))
-            descr.append({"inv": inv_, "outv": outv_, "a": a_, "g": g_})
-        except ValueError:
-            pass
-    eqc = []
-    for x in cs:
-        row = []
-        for y in cs:
+        a0, g0 = intervals(rng.randint(1, 3), True), intervals(rng.randint(2, 3), rng.random() < 0.5)
+        g_late = [list(x) for x in g0]
+        g_late[-1] = [g_late[-1][0] + 20, g_late[-1][1] + 20]            # differs in the LAST alternative only
+        g_first = [list(x) for x in g0]
+        g_first[0] = [g_first[0][0] - 20, g_first[0][1] - 20]            # differs in the FIRST alternative only
+        a_late = [list(x) for x in a0]
+        a_late[-1] = [a_late[-1][0] + 20, a_late[-1][1] + 21]
+        specs = [(["i"], ["o"], a0, g0), (["i"], ["o"], a0, g0), (["i"], ["o"], list(reversed(a0)), list(reversed(g0))),
+                 (["i"], ["o"], a0, g_late), (["i"], ["o"], a0, g_first), (["i"], ["o"], a_late, g0),
+                 (["i"], ["o"], a0, g0[:-1]), (["i"], ["o"], a0, g0 + [[g0[-1][1] + 5, g0[-1][1] + 6]]),
+                 (["i"], ["o", "p"], a0, g0), (["i", "j"], ["o"], a0, g0)]
+        cs, descr = [], []
+        for inv_, outv_, a_, g_ in specs:
             try:
-                row.append("true" if x == y else "false")
-            except Exception as e:  # noqa: BLE001
-                row.append(type(e).__name__)
-        eqc.append(row)
-    evs.append({"kind": "compound", "objs": descr, "eq": eqc, "hash": [1] * len(cs), "copies": [[1, 2]] if len(cs) > 1 and descr[1] == descr[0] else []})
+                cs.append(comp(inv_, outv_, a_, g_))
+                descr.append({"inv": inv_, "outv": outv_, "a": a_, "g": g_})
+            except ValueError:
+                pass
+        eqc = []
+        for x in cs:
+            row = []
+            for y in cs:
+                try:
+                    row.append("true" if x == y else "false")
+                except Exception as e:  # noqa: BLE001
+                    row.append(type(e).__name__)
+            eqc.append(row)
+        evs.append({"kind": "compound", "objs": descr, "eq": eqc, "hash": [1] * len(cs), "copies": [[1, 2]] if len(cs) > 1 and descr[1] == descr[0] else []})
     for e in evs:
         e["groups"] = ["eq"]
     return {"id": case["id"], "ev": evs}
